@@ -266,7 +266,7 @@ R"(
         return ctx_manager->get(t).underlying_type;
     }
 
-    static std::string make_entry_cursor_constructor(
+    std::string make_entry_cursor_constructor(
         const sbe::level_members& members,
         const std::string_view class_name,
         const std::string_view block_length_type,
@@ -274,10 +274,12 @@ R"(
     {
         // for empty group entries we generate a special cursor constructor to
         // advance cursor to `block_length` because there are no other fields
-        // to do this. Default constructor is declared explicitly because old
-        // compilers don't support inheriting it from the base class.
-        if(members.fields.empty() && members.groups.empty()
-           && members.data.empty())
+        // to do this. Constant fields don't count, they are not encoded and
+        // their accessors never touch the cursor. Default constructor is
+        // declared explicitly because old compilers don't support inheriting
+        // it from the base class.
+        if(get_non_const_fields(members.fields).empty()
+           && members.groups.empty() && members.data.empty())
         {
             return fmt::format(
                 // clang-format off
